@@ -216,7 +216,8 @@ def run(eng, R):
                 if not hasattr(m, "node"):
                     continue
                 for r in ast.walk(m.node):
-                    if isinstance(r, ast.Return) and r.value is not None and self_attr(r.value) and self_attr(r.value).isupper():
+                    # returns a class-level list as it is - on some path (`return self._NAMES`, `return self._NAMES if c else []`)
+                    if isinstance(r, ast.Return) and r.value is not None and any(self_attr(v) and self_attr(v).isupper() for v in common.expand_ifexp(r.value)):
                         const_returning.add(name)
         n_sites = 0
         for f in p.all_functions():
